@@ -379,6 +379,116 @@ theorem T9_whole_client_manager_never_panics (T : Torrent) (sha1 : Bytes → Byt
     omega
   · intro bs hb; rw [hpl]; exact hbits bs hb
 
+/-! ### The task's piece count is the manager's -/
+
+theorem hstep_piecesNum (sha1 : Bytes → Bytes) (disk : Bytes → Option Bytes) (t : HState) (inp : HIn) (t' : HState)
+    (outs : List HOut) (e : Option Bool) (h : hstep sha1 disk t inp = some (t', outs, e)) : t'.piecesNum = t.piecesNum := by
+  cases hal : t.alive with
+  | false =>
+    simp only [hstep, hal, Bool.not_false, if_true, Option.some.injEq, Prod.mk.injEq] at h
+    rw [← h.1]
+  | true =>
+    have hg : (!t.alive) = false := by simp [hal]
+    cases inp with
+    | frame m rep =>
+      simp only [hstep, hg, Bool.false_eq_true, if_false] at h
+      cases hf : handleFrame sha1 disk t m rep with
+      | none => simp [hf] at h
+      | some res =>
+        obtain ⟨s1, o1, c⟩ := res
+        obtain ⟨_, _, _, _, h5⟩ := handleFrame_core sha1 disk t m rep s1 o1 c hf
+        rw [hf] at h
+        cases c <;> simp only [terminate, Option.some.injEq, Prod.mk.injEq] at h <;> (rw [← h.1]; exact h5)
+    | eof => simp only [hstep, hg, Bool.false_eq_true, if_false, terminate, Option.some.injEq, Prod.mk.injEq] at h; rw [← h.1]
+    | recvErr => simp only [hstep, hg, Bool.false_eq_true, if_false, terminate, Option.some.injEq, Prod.mk.injEq] at h; rw [← h.1]
+    | start => simp only [hstep, hg, Bool.false_eq_true, if_false, Option.some.injEq, Prod.mk.injEq] at h; rw [← h.1]
+    | bcState en =>
+      simp only [hstep, hg, Bool.false_eq_true, if_false] at h
+      split at h <;> (simp only [Option.some.injEq, Prod.mk.injEq] at h; rw [← h.1])
+    | tick =>
+      simp only [hstep, hg, Bool.false_eq_true, if_false] at h
+      split at h <;> (simp only [terminate, Option.some.injEq, Prod.mk.injEq] at h; rw [← h.1])
+    | bcHave i rep => exact (hstep_bcHave_core sha1 disk t hal i rep t' outs e h).2.2.2.2.2.1
+
+theorem sysStep_length (T : Torrent) (sha1 : Bytes → Bytes) (S S' : Sys) (hs : SysStep T sha1 S S') :
+    S'.m.statuses.length = S.m.statuses.length := by
+  cases hs with
+  | connect a t m' hnone hfresh hadd => exact Rdest.Props.C11.mstep_length S.m m' _ _ hadd
+  | own a d inp m' t' outs hl =>
+    obtain ⟨e, m1, _, hH, rfl⟩ := hl
+    rw [(Rdest.Props.C11.afterEnd_keeps a e m1).1]
+    rcases Rdest.Props.C11.handled_cases T a S.m m1 _ _ hH with rfl | ⟨ev, r, hm, _⟩
+    · rfl
+    · exact Rdest.Props.C11.mstep_length S.m m1 ev r hm
+
+/-- The whole client where every connection task is created with the torrent's piece count (`PeerHandler::new(…,
+    pieces_num, …)`, the same `Metainfo::pieces_num()` the manager's status vector is built from in `Session::new`). -/
+inductive StepN (T : Torrent) (sha1 : Bytes → Bytes) : Sys → Sys → Prop where
+  | connect (S : Sys) (a : Nat) (t : HState) (m' : MState) :
+      findPeer S.m a = none → FreshTask t → t.piecesNum = S.m.statuses.length →
+      mstep S.m (.add a S.m.statuses.length) = .ok m' .none →
+      StepN T sha1 S { S with m := m', tasks := updateTask S.tasks a t }
+  | own (S : Sys) (a : Nat) (d : Option (Bytes × Bytes)) (inp : HIn) (m' : MState) (t' : HState) (outs : List HOut) :
+      LStepO T sha1 (diskOf d) a S.m (S.tasks a) inp m' t' outs →
+      StepN T sha1 S { m := m', tasks := updateTask S.tasks a t', stored := savedBy sha1 (S.tasks a) outs ++ S.stored }
+
+inductive ReachN (T : Torrent) (sha1 : Bytes → Bytes) : Sys → Prop where
+  | init (n : Nat) (dead : Nat → HState) : (∀ a, (dead a).alive = false) →
+      ReachN T sha1 { m := { statuses := List.replicate n .missing, peers := [] }, tasks := dead, stored := [] }
+  | step (S S' : Sys) : ReachN T sha1 S → StepN T sha1 S S' → ReachN T sha1 S'
+
+theorem stepN_step (T : Torrent) (sha1 : Bytes → Bytes) (S S' : Sys) (h : StepN T sha1 S S') : SysStep T sha1 S S' := by
+  cases h with
+  | connect a t m' hnone hfresh _ hadd => exact SysStep.connect S a t m' hnone hfresh hadd
+  | own a d inp m' t' outs hl => exact SysStep.own S a d inp m' t' outs hl
+
+theorem reachN_reach (T : Torrent) (sha1 : Bytes → Bytes) (S : Sys) (h : ReachN T sha1 S) : SysReach T sha1 S := by
+  induction h with
+  | init n dead hdead => exact SysReach.init n dead hdead
+  | step S S' _ hs ih => exact SysReach.step S S' ih (stepN_step T sha1 S S' hs)
+
+def NumOk (S : Sys) : Prop := ∀ a, (S.tasks a).alive = true → (S.tasks a).piecesNum = S.m.statuses.length
+
+theorem numOk_reach (T : Torrent) (sha1 : Bytes → Bytes) (S : Sys) (h : ReachN T sha1 S) : NumOk S := by
+  induction h with
+  | init n dead hdead => intro a ha; rw [hdead a] at ha; cases ha
+  | step S S' _ hs ih =>
+    have hlen := sysStep_length T sha1 S S' (stepN_step T sha1 S S' hs)
+    intro b hb
+    rw [hlen]
+    cases hs with
+    | connect a t m' hnone hfresh hnum hadd =>
+      by_cases hba : b = a
+      · subst hba; simp only [updateTask, if_true]; exact hnum
+      · simp only [updateTask, hba, if_false] at hb ⊢; exact ih b hb
+    | own a d inp m' t' outs hl =>
+      by_cases hba : b = a
+      · subst hba
+        simp only [updateTask, if_true] at hb ⊢
+        obtain ⟨e, m1, hh, _, _⟩ := hl
+        rw [hstep_piecesNum sha1 _ (S.tasks b) inp t' outs e hh]
+        cases hal : (S.tasks b).alive with
+        | true => exact ih b hal
+        | false =>
+          simp only [hstep, hal, Bool.not_false, if_true, Option.some.injEq, Prod.mk.injEq] at hh
+          rw [← hh.1, hal] at hb; cases hb
+      · simp only [updateTask, hba, if_false] at hb ⊢; exact ih b hb
+
+/-- **T10 (whole client, "no sequence of peer events makes the manager panic").** T9 with the piece count of the tasks
+    *derived* (`numOk_reach`): in every reachable state of the whole client whose connection tasks are created with the
+    torrent's piece count, no command a live task sends while handling any input makes the manager panic, for every
+    outcome of the random piece choice. The one remaining premise is about the decoder, not about peers or schedules: a
+    bitfield the task has accepted is decoded by the manager to as many bits as there are pieces (`hbits`). -/
+theorem T10_whole_client_manager_never_panics (T : Torrent) (sha1 : Bytes → Bytes) (S : Sys) (h : ReachN T sha1 S)
+    (a : Nat) (d : Option (Bytes × Bytes)) (inp : HIn) (t' : HState) (outs : List HOut) (e : Option Bool)
+    (hal : (S.tasks a).alive = true)
+    (hh : hstep sha1 (diskOf d) (S.tasks a) inp = some (t', outs, e))
+    (c : Cmd) (hc : c ∈ cmdsOf outs) (chosen : Option Nat) (bits : Pieces) (ev : Ev) (hev : evOfCmd a chosen bits c = some ev)
+    (hbits : ∀ bs, c = .recvBitfield bs → bits.length = S.m.statuses.length) :
+    ∀ why, mstep S.m ev ≠ .panic why :=
+  T9_whole_client_manager_never_panics T sha1 S (reachN_reach T sha1 S h) a d inp t' outs e hal
+    (numOk_reach T sha1 S h a hal) hh c hc chosen bits ev hev hbits
+
 /-- Non-vacuity (test): a reachable state of the whole client with a `Reserved` piece — one connection: handshake,
     `Interested`, `Unchoke` answered with a request for piece 0. -/
 example : ∃ S, SysReach ⟨[[7]], fun _ => 1⟩ id S ∧ S.m.statuses[0]? = some (.reserved 1) := by
@@ -410,6 +520,21 @@ example : ∃ (S : Sys) (t' : HState) (outs : List HOut), SysReach ⟨[[7]], fun
   have r4 := SysReach.step _ _ r3 (SysStep.own _ 0 none (.frame .unchoke (.req { index := 0, length := 1, hash := [7] } true)) _ _ _
     ⟨_, _, rfl, (by show ∃ chosen r, mstep _ _ = _ ∧ _ = _; exact ⟨some 0, _, rfl, rfl⟩), rfl⟩)
   exact ⟨_, _, _, r4, rfl, rfl, rfl, by decide⟩
+
+/-- Non-vacuity (test) for T10: the same state is reachable with tasks created with the torrent's piece count. -/
+example : ∃ (S : Sys) (t' : HState) (outs : List HOut), ReachN ⟨[[7]], fun _ => 1⟩ id S ∧ (S.tasks 0).alive = true ∧
+    hstep id (diskOf none) (S.tasks 0) (.bcHave 0 .ignore) = some (t', outs, none) ∧ Cmd.pieceCancel ∈ cmdsOf outs := by
+  let T : Torrent := ⟨[[7]], fun _ => 1⟩
+  let t0 : HState := { infoHash := [1], ownId := [2], piecesNum := 1 }
+  have r0 : ReachN T id _ := ReachN.init 1 (fun _ => { t0 with alive := false }) (fun _ => rfl)
+  have r1 := ReachN.step _ _ r0 (StepN.connect _ 0 t0 _ rfl ⟨rfl, rfl, rfl⟩ rfl rfl)
+  have r2 := ReachN.step _ _ r1 (StepN.own _ 0 none (.frame (.handshake [1] [3]) (.bitfield [0])) _ _ _
+    ⟨_, _, rfl, (by show _ = _; exact rfl), rfl⟩)
+  have r3 := ReachN.step _ _ r2 (StepN.own _ 0 none (.frame .interested .none) _ _ _
+    ⟨_, _, rfl, (by show mstep _ _ = _; exact rfl), rfl⟩)
+  have r4 := ReachN.step _ _ r3 (StepN.own _ 0 none (.frame .unchoke (.req { index := 0, length := 1, hash := [7] } true)) _ _ _
+    ⟨_, _, rfl, (by show ∃ chosen r, mstep _ _ = _ ∧ _ = _; exact ⟨some 0, _, rfl, rfl⟩), rfl⟩)
+  exact ⟨_, _, _, r4, rfl, rfl, by decide⟩
 
 end Whole
 
